@@ -1244,6 +1244,11 @@ def _core_types(names):
             t[nm] = S.design(2, oftf=CORE_OFTF, ducts=2, duct_t=[0.0015, 0.002], byp_t=0.002, bypass_fraction=0.08)
         elif nm == 'E':
             t[nm] = S.design(3, oftf=CORE_OFTF, ducts=2, duct_t=[0.0015, 0.002], byp_t=0.002, bypass_fraction=0.08)
+        elif nm == 'R':
+            # the bundle of A between two un-rodded regions (heat crosses the wall in all three)
+            t[nm] = S.design(2, oftf=CORE_OFTF, regions={
+                'lower': {'z_lo': 0.0, 'z_hi': round(0.3 * CORE_L, 6), 'vf_coolant': 0.3},
+                'upper': {'z_lo': round(0.7 * CORE_L, 6), 'z_hi': CORE_L, 'vf_coolant': 0.35, 'model': '6node'}})
         else:
             raise ValueError(nm)
     return t
@@ -1282,7 +1287,7 @@ def _core_scenario(c):
 # ======================================================================
 # 4. AssemblyEnergyBalanceTable  (C01)
 EBAL_LAYOUTS_Q = ['A', 'B', 'D', 'E',
-                  'A A A A A A A', 'A B A B A A B', 'B A - A D A A', 'D D A - A B A', 'E A A E - A A']
+                  'A A A A A A A', 'A B A B A A B', 'B A - A D A A', 'D D A - A B A', 'E A A E - A A', 'R A B R A - R']
 EBAL_LAYOUTS_T = EBAL_LAYOUTS_Q + ['C', 'C A B A B A B', 'A - - D - - B', '- A A A A A A', 'B B B B B B B',
                                    'A A B - D E C A A B B A - A A D A B A']
 
@@ -1400,10 +1405,20 @@ def run_ebal(c):
                    % (col, i + 1), kind='col-' + col, extra_abs=ro, row=i, col=col, **f)
         exA = float(comp[i]['pins'] + comp[i]['cool'])
         exB = float(comp[i]['duct'])
-        ck.num(row[1], exA, fE, 'column A of assembly %d is not the exact integral of its pin + coolant power profile'
-               % (i + 1), kind='col-A-input', row=i, col='A', **f)
-        ck.num(row[2], exB, fE, 'column B of assembly %d is not the exact integral of its duct power profile' % (i + 1),
-               kind='col-B-input', row=i, col='B', **f)
+        if len(a.region) > 1:
+            # un-rodded regions book all the power of their planes (wall heating included) with the coolant: the
+            # split between A and B is then the recorder's (checked above); what the input fixes is the sum
+            exA, exB = float(own['A']), float(own['B'])
+            tot_in = float(comp[i]['pins'] + comp[i]['cool'] + comp[i]['duct'])
+            ck.cells += 1
+            if abs(exA + exB - tot_in) > 1e-9 * abs(tot_in):
+                ck.bad('col-AB-input', 'A + B of assembly %d is not the exact integral of its power profiles' % (i + 1),
+                       exA + exB, tot_in, 1e-9 * abs(tot_in), row=i, col='A+B', **f)
+        else:
+            ck.num(row[1], exA, fE, 'column A of assembly %d is not the exact integral of its pin + coolant power profile'
+                   % (i + 1), kind='col-A-input', row=i, col='A', **f)
+            ck.num(row[2], exB, fE, 'column B of assembly %d is not the exact integral of its duct power profile' % (i + 1),
+                   kind='col-B-input', row=i, col='B', **f)
         totA += exA
         totB += exB
         mdT += flows[i] * own['G']
